@@ -62,6 +62,11 @@ impl<'h> FindMatchesImpl<'h> {
         }
         self.last_position = 0;
         self.offset = offset;
+        // The character in front of the new position decides whether the next one starts a line.
+        self.last_char = self.input[..offset.min(self.input.len())]
+            .chars()
+            .next_back()
+            .unwrap_or('\0');
     }
 
     /// The part of the haystack the char_indices iterator is relative to.
@@ -96,7 +101,7 @@ impl<'h> FindMatchesImpl<'h> {
             } else {
                 // The iterator is exhausted.
                 // We should update the line offsets with the last character of the haystack.
-                self.record_line_offset(self.last_position + self.offset, '\0');
+                self.record_line_offset(self.input.len(), '\0');
                 break;
             }
         }
